@@ -1604,5 +1604,48 @@ theorem c10_shape_local_LocalManager_send :
     Shapes.network_local_LocalManager_send =
    ["lm.Lock", "defer:lm.Unlock", "send:incomingQueue"] := rfl
 
+theorem c10_shape_tcp_TCPListener_listen :
+    Shapes.network_tcp_TCPListener_listen =
+   ["listeningLock.Lock", "if:(t.closed==true)", "listeningLock.Unlock", "return:nil",
+     "listeningLock.Unlock", "listener.Accept", "if:(err!=nil)", "recv:quit",
+     "send:quitListener", "return:nil", "fn"] := rfl
+
+theorem c10_shape_tcp_TCPListener_Stop :
+    Shapes.network_tcp_TCPListener_Stop =
+   ["listeningLock.Lock", "defer:listeningLock.Unlock", "close:quit", "if:(t.listener!=nil)",
+     "listener.Close", "if:(err!=nil)", "if:(handleError(err)!=ErrClosed)",
+     "return:xerrors.Errorf(\"\",handleError(err))", "if:t.listening", "recv:quitListener",
+     "recv:After()", "time.After", "return:nil"] := rfl
+
+theorem c10_shape_tcp_TCPListener_Listen :
+    Shapes.network_tcp_TCPListener_Listen =
+   ["go{", "fn", "}", "t.listen"] := rfl
+
+theorem c10_shape_local_LocalListener_Listen :
+    Shapes.network_local_LocalListener_Listen =
+   ["ll.Lock", "if:ll.listening", "ll.Unlock", "return:xerrors.Errorf(\"\",ll.addr)",
+     "manager.setListening", "ll.Unlock", "recv:quit", "return:nil"] := rfl
+
+theorem c10_shape_local_LocalListener_Stop :
+    Shapes.network_local_LocalListener_Stop =
+   ["ll.Lock", "defer:ll.Unlock", "if:!ll.listening", "return:nil", "manager.unsetListening",
+     "close:quit", "return:nil"] := rfl
+
+theorem c10_shape_Server_Start :
+    Shapes.server_Server_Start =
+   ["InformServerStarted", "time.Now", "go{", "Router.Start", "}", "go{", "WebSocket.start", "}",
+     "Router.Listening", "WebSocket.Listening", "time.Sleep", "c.Lock", "c.Unlock",
+     "recv:closeitChannel"] := rfl
+
+theorem c10_shape_WebSocket_stop :
+    Shapes.websocket_WebSocket_stop =
+   ["w.Lock", "defer:w.Unlock", "if:!w.started", "return:", "time.Now", "Now().Add",
+     "context.Background", "context.WithDeadline", "server.Shutdown", "cancel", "recv:startstop"] := rfl
+
+theorem c10_shape_serviceManager_closeDatabase :
+    Shapes.service_serviceManager_closeDatabase =
+   ["if:(s.db!=nil)", "db.Close", "if:(err!=nil)", "if:s.delDb", "s.dbFileName", "os.Remove",
+     "if:(err!=nil)", "return:xerrors.Errorf(\"\",err)", "return:nil"] := rfl
+
 
 end C10
